@@ -32,12 +32,12 @@ class LazySB(dict):
         return True
 
 
-for (n, m, multi, tier) in ((12, 3, False, 'quick'), (12, 3, True, 'quick'), (4, 4, False, 'thorough'), (2, 4, True, 'thorough'), (1, 0, False, 'thorough'), ((1 << 64) - 1, 2, False, 'thorough')):
+for (n, m, multi, tier) in ((12, 3, False, 'quick'), (12, 3, True, 'quick'), (4, 4, False, 'deep'), (2, 4, True, 'deep'), (1, 0, False, 'thorough'), ((1 << 64) - 1, 2, False, 'deep')):
     for prefix in range(0, m + 1):
         q = tier == 'quick' and prefix in (0, 1, m)
         i = inst(P, 'c16_sparse_%s_n%d_m%d_p%d' % ('multi' if multi else 'set', n, m, prefix),
                  SB('c16::sparse_builder(%%d, %%d, %%d, %s, %d)' % ('true' if multi else 'false', prefix), n, m, multi),
-                 tier='quick' if q else 'thorough', unwind=10, stubs=SPARSE, cap=900, cap_thorough=3600, mem=10, weight=m + 1,
+                 tier='quick' if q else tier if tier != 'quick' else 'thorough', unwind=10, stubs=SPARSE, cap=900, cap_thorough=3600, mem=10, weight=m + 1,
                  desc='SparseBuilder (%s, universe %d, capacity %d): %d accepted calls, then one try_set(x) for all usize x, then fill + convert' % ('multiset' if multi else 'set', n, m, prefix),
                  shape={'universe': n, 'capacity': m, 'multiset': multi, 'prefix': prefix})
         i.unwindset = LazySB(n, m, multi)
@@ -58,7 +58,7 @@ def rluw(bound):
 
 
 for (steps, bound, conv, tier) in ((1, 'usize::MAX', False, 'quick'), (2, 'usize::MAX', False, 'quick'), (3, 'usize::MAX', False, 'thorough'),
-                                   (2, '7', True, 'thorough'), (3, '7', True, 'thorough'), (2, '1 << 20', True, 'thorough'), (3, '1 << 20', True, 'thorough'), (2, 'usize::MAX', True, 'thorough')):
+                                   (2, '7', True, 'deep'), (3, '7', True, 'deep'), (2, '1 << 20', True, 'deep'), (3, '1 << 20', True, 'deep'), (2, 'usize::MAX', True, 'deep')):
     inst(P, 'c16_rl_steps%d_%s_%s' % (steps, {'usize::MAX': 'any', '7': 'tiny', '1 << 20': 'small'}[bound], 'convert' if conv else 'observe'),
          'c16::rl_builder(%d, %s, %s)' % (steps, bound, 'true' if conv else 'false'), tier=tier, unwind=10, unwindset=rluw(bound), stubs=RLSTUBS,
          cap=1500, cap_thorough=5400, mem=30 if conv else 12, weight=50 * steps,
@@ -68,7 +68,7 @@ for (steps, bound, conv, tier) in ((1, 'usize::MAX', False, 'quick'), (2, 'usize
 
 for kinds in ('LT', 'TL', 'TT', 'TLT', 'LTT', 'TTT'):
     inst(P, 'c16_rl_seq_%s_tiny_convert' % kinds, 'c16::rl_builder_kinds(%d, 7, true, &[%s])' % (len(kinds), ', '.join('true' if c == 'T' else 'false' for c in kinds)),
-         tier='thorough', unwind=10, unwindset=rluw('7'), stubs=RLSTUBS, cap=1500, cap_thorough=5400, mem=30, weight=100, role='rl builder',
+         tier='deep', unwind=10, unwindset=rluw('7'), stubs=RLSTUBS, cap=1500, cap_thorough=5400, mem=30, weight=100, role='rl builder',
          desc='RLBuilder call sequence %s (T = try_set(start,len), L = set_len(n); arguments symbolic <= 7), then RLVector::from: run iterator yields exactly the accepted merged runs' % kinds,
          shape={'sequence': kinds, 'bound': 7})
 
